@@ -130,16 +130,18 @@ def has_cycle_from_outputs(c):
     return False
 
 
-def src_for(c):
+def src_for(c, build_src=None):
+    if build_src is not None:
+        return REPLAY_PRELUDE + build_src + "\nfrom checks.c20 import traversal_problems, has_cycle_from_outputs\n"
     return (REPLAY_PRELUDE + circ.circ_src(c).replace("c.set_inputs", "c._inputs = list") + "\nfrom checks.c20 import traversal_problems, has_cycle_from_outputs\n")
 
 
-def check_circuit(p, name, c, rnd, exhaustive_starts):
+def check_circuit(p, name, c, rnd, exhaustive_starts, build_src=None):
     labs = list(c.gates)
     tp = circ.topsort_problems(c)
     p.case(("topsort", circ.snapshot(c)[:3]), sample=f"{name}: {circ.describe(c)}")
     if tp:
-        p.violation("traverse:top_sort", f"{tp[:2]} for {circ.describe(c)}", src_for(c) + "bad=circ.topsort_problems(c)\nprint(bad); sys.exit(1 if bad else 0)\n")
+        p.violation("traverse:top_sort", f"{tp[:2]} for {circ.describe(c)}", src_for(c, build_src) + "bad=circ.topsort_problems(c)\nprint(bad); sys.exit(1 if bad else 0)\n")
         return
     start_sets = [None]
     if exhaustive_starts:
@@ -162,7 +164,7 @@ def check_circuit(p, name, c, rnd, exhaustive_starts):
                     if probs:
                         p.violation(f"traverse:{mode}:{'inverse' if inverse else 'forward'}:{probs[0].split(' ')[0]}",
                                     f"{mode}(start={starts}, inverse={inverse}, topsort_unvisited={tsu}) on {circ.describe(c)}: {probs[:2]}",
-                                    src_for(c) + f"try:\n    bad=traversal_problems(c, {mode!r}, {starts!r}, {inverse!r}, {tsu!r})\nexcept Exception as e:\n    bad=[repr(e)]\nprint(bad); sys.exit(1 if bad else 0)\n")
+                                    src_for(c, build_src) + f"try:\n    bad=traversal_problems(c, {mode!r}, {starts!r}, {inverse!r}, {tsu!r})\nexcept Exception as e:\n    bad=[repr(e)]\nprint(bad); sys.exit(1 if bad else 0)\n")
                         return
 
 
@@ -216,6 +218,13 @@ def unit(p, item, tier, seed):
         for i in range(12 if tier == "quick" else 40):
             c = circgen.random_circuit(rnd, rnd.randint(0, 4), rnd.randint(1, 10), max_arity=3, n_outputs=rnd.randint(0, 3), shuffle_storage=True)
             check_circuit(p, f"seeded[{arg}:{i}]", c, rnd, exhaustive_starts=False)
+    elif kind == "history":
+        from checks.c01 import history_circuit
+
+        for i in range(40 if tier == "quick" else 150):
+            c, src = history_circuit(rnd, f"{arg}:{i}")
+            if c is not None:
+                check_circuit(p, f"history[{arg}:{i}]", c, rnd, exhaustive_starts=False, build_src=src)
     elif kind == "feature":
         for n, c in circgen.feature_circuits():
             check_circuit(p, n, c, rnd, exhaustive_starts=True)
@@ -251,4 +260,5 @@ def run(rep, tier, seed, only=None):
         for ch in _chunks(topos, 20):
             work.append(("systematic", (n_in, ch)))
     work += [("seeded", seed * 7 + s) for s in range(32 if thorough else 12)]
+    work += [("history", seed * 5 + s) for s in range(24 if thorough else 8)]
     rep.pmap(unit, work)
